@@ -500,12 +500,13 @@ struct Obs {
 struct SeeModel {
     std::set<Obs> must, maybe;
     std::set<std::pair<Mac, Mac>> keys; // (eth src, real src) pairs already pending
+    std::set<std::pair<Mac, Mac>> maybe_keys; // pairs of observations the responder MAY have recorded (destination only half ours): a later frame with such a pair may be dropped as a duplicate
     bool relaxed = false;               // more than 300 pending in this period: conservation not demanded (C19 may cap)
     // Even while relaxed: every descriptor a QueryResp delivered made room for one more observation, whatever the bound is.  An
     // observation received while such room exists must be recorded, i.e. reported before the drain ends.
     uint64_t room = 0;
     std::set<Obs> strict;
-    void clear() { must.clear(); maybe.clear(); keys.clear(); relaxed = false; room = 0; strict.clear(); }
+    void clear() { must.clear(); maybe.clear(); keys.clear(); maybe_keys.clear(); relaxed = false; room = 0; strict.clear(); }
 };
 struct MonC07 : Monitor {
     std::map<int, SeeModel> sm;
@@ -522,16 +523,17 @@ struct MonC07 : Monitor {
             std::pair<Mac, Mac> key(o.es, o.rs);
             if (e_own && r_own && !d.internal_fault && !(gf & G_MAC)) {
                 if (s.keys.count(key)) { if (!s.must.count(o) && !s.maybe.count(o)) s.maybe.insert(o); w.note("c07_duplicate_observation"); }
+                else if (s.maybe_keys.count(key)) { s.maybe.insert(o); w.note("c07_possible_duplicate_of_half_addressed_frame"); }
                 else { s.must.insert(o); s.keys.insert(key); if (s.relaxed && s.room > 0) { s.room--; s.strict.insert(o); w.note("c07_observation_into_freed_room"); } }
                 if (s.must.size() > 300) s.relaxed = true;
             } else if (!e_own && !r_own && !(gf & G_MAC)) { w.note("c07_foreign_probe"); }
-            else { s.maybe.insert(o); }
+            else { s.maybe.insert(o); s.maybe_keys.insert(key); }
         } else if (tos == 0 && op == W_RESET) { s.clear(); w.note("c07_reset"); }
         else if (tos == 1 && op == W_RESET) { for (auto &o : s.must) s.maybe.insert(o); s.must.clear(); s.strict.clear(); s.room = 0; }
         else if (tos == 0 && op == W_QUERY) {
             std::vector<const TxRec *> qr;
             for (auto &tx : d.txs) if (tx.channel == 0 && tx.data.size() >= 34 && tx.data[OFF_OP] == W_QUERYRESP) qr.push_back(&tx);
-            if (d.internal_fault) { for (auto &o : s.must) s.maybe.insert(o); s.must.clear(); s.keys.clear(); s.strict.clear(); s.room = 0; if (qr.empty()) return; }
+            if (d.internal_fault) { for (auto &o : s.must) s.maybe.insert(o); s.must.clear(); for (auto &k : s.keys) s.maybe_keys.insert(k); s.keys.clear(); s.strict.clear(); s.room = 0; if (qr.empty()) return; }
             if (qr.empty()) { w.violate("C07", "query-unanswered", "Query got no QueryResp"); return; }
             const Bytes &f = qr[0]->data;
             Mac qs = mac_at(d.buf + OFF_RSRC), qe = mac_at(d.buf + OFF_ESRC);
@@ -575,7 +577,7 @@ struct MonC07 : Monitor {
                 return;
             }
             if (!more) { // whatever an implementation did not deliver and did not announce is gone
-                s.maybe.clear(); s.keys.clear(); s.relaxed = false; s.must.clear(); s.room = 0; s.strict.clear();
+                s.maybe.clear(); s.keys.clear(); s.maybe_keys.clear(); s.relaxed = false; s.must.clear(); s.room = 0; s.strict.clear();
             } else {
                 s.keys.clear();
                 for (auto &o : s.must) s.keys.insert({o.es, o.rs});
@@ -1221,6 +1223,7 @@ std::vector<Monitor *> make_monitors(const std::string &prop, World &) {
     add("C12", new MonC12()); add("C13", new MonC13()); add("C14", new MonC14()); add("C15", new MonC15()); add("C16", new MonC16());
     add("C19", new MonC19());
     if (prop == "C18") { v.push_back(new MonC02()); v.push_back(new MonC19()); v.push_back(new MonC08()); v.push_back(new MonC06()); }
+    if (prop == "C02") v.push_back(new MonC08()); // the per-response relation of a QueryLargeTlvResp (length, flag, bytes at the offset) belongs to the inner structure the opcode prescribes
     if (prop == "C09" || prop == "C17") { /* twin / solo comparison is done by the world and the driver */ }
     return v;
 }
